@@ -5,7 +5,6 @@ import (
 	"encoding/json"
 	"errors"
 	"fmt"
-	"net"
 	"os"
 	"sync"
 	"sync/atomic"
@@ -21,6 +20,7 @@ import (
 	"github.com/mgtv-tech/redis-GunYu/syncer"
 
 	"verifharness/cache"
+	"verifharness/fake"
 	"verifharness/gen"
 	"verifharness/pbt"
 )
@@ -259,7 +259,7 @@ func run(c Case) (fs []failure, inconc string, facts map[string]bool, msgs int) 
 		srv.cut = &atomic.Int64{}
 		srv.cut.Store(int64(c.CutAfter))
 	}
-	ln, err := net.Listen("tcp", "127.0.0.1:0")
+	ln, err := fake.Listen()
 	if err != nil {
 		return nil, err.Error(), facts, 0
 	}
